@@ -140,7 +140,7 @@ static inline ref::Layout gen_layout(const Table& t, const LayoutOpts& lo) {
         cl.extra_index_bits = draw(6) == 5 ? (int)draw(5) : 0;
         cl.level_policy = (int)draw(4); cl.index_policy = (int)draw(4);
         cl.crc = draw(2) == 1; cl.dict_offset_present = draw(4) != 3;
-        cl.chunk_stats = lo.stats ? (int)draw(4) : 0; cl.page_stats = draw(4) == 3;
+        cl.chunk_stats = lo.stats ? (int)draw(4) : 0; cl.page_stats = draw(4) == 3; cl.nan_policy = (int)draw(2);
         cl.file_offset_mode = (int)draw(3); cl.shuffle_dict = draw(3) == 2;
         L.chunks.push_back(cl);
     }
